@@ -38,7 +38,7 @@ FMT = dict(
 	final=['yes', 'no'],
 	gz=['no', 'yes', 'multi-member'],
 	name=['x.fasta', 'x.fa.gz', 'x', 'x.gz.fna'],
-	header=['plain', 'id-only', 'looks-like-sequence', 'long'],      # record titles are not biological content
+	header=['plain', 'id-only', 'looks-like-sequence', 'long', 'non-ascii'],      # record titles are not biological content
 )
 
 
@@ -69,11 +69,12 @@ def write(path, seqs, fmt):
 	lines = []
 	for i, s in enumerate(seqs):
 		lines.append({'plain': f'>c{i + 1} some description {i}', 'id-only': f'>c{i + 1}', 'looks-like-sequence': f'>ATCGCATT{"ACGT"[i % 4]} ATGACGGATCGCAC >ATTT',
-		              'long': f'>c{i + 1} ' + 'ATCGCA plasmid=yes; ' * 40}[fmt.get('header', 'plain')])
+		              'long': f'>c{i + 1} ' + 'ATCGCA plasmid=yes; ' * 40,
+		              'non-ascii': f'>c{i + 1} Erwinia sp. Årsta µ-strain 株{i}'}[fmt.get('header', 'plain')])
 		w = width_of(fmt['width'], len(s))
 		lines.extend(s[j:j + w] for j in range(0, len(s), w))
 	txt = eol.join(lines) + (eol if fmt['final'] == 'yes' else '')
-	data = txt.encode('ascii')
+	data = txt.encode('utf-8')
 	if fmt['gz'] != 'no':
 		import gzip, io
 		# 'multi-member': a valid gzip file made of several members (what bgzip or `cat a.gz b.gz` produce), cut mid-record
@@ -83,8 +84,15 @@ def write(path, seqs, fmt):
 			with gzip.GzipFile(fileobj=buf, mode='wb', mtime=0) as f:
 				f.write(data[a:b])
 		data = buf.getvalue()
-	with open(path, 'wb') as f:
+	with open(path, 'wb') as f:         # overwritten in place when the path exists (same inode)
 		f.write(data)
+	# file times are part of the environment the harness owns: every file carries the same, fixed modification time, so that nothing can tell
+	# two different genomes written to one path apart by anything but their bytes (rsync -t --inplace, cp -p, coarse-timestamp file systems)
+	os.utime(path, ns=(FIXED_NS, FIXED_NS))
+
+
+FIXED_NS = 1_600_000_000 * 10 ** 9
+_PREV = {}
 
 
 def sig_of(path, ks):
@@ -106,14 +114,23 @@ def check_file(sh, d, ks, subset, order, orient, fmt, base_sig, exp, k=K, prefix
 	path = os.path.join(d, fmt['name'])
 	write(path, seqs, fmt)
 	case = dict(subset=list(subset), order=list(order), orient=list(orient), fmt=dict(fmt), k=k, prefix=prefix)
+	# the file is NOT removed afterwards: the next genome with this file name overwrites it in place.  What was there before is part of the case.
+	size = os.path.getsize(path)
+	me = (list(order), list(orient), dict(fmt))
+	lst = _PREV.setdefault((path, size), [])     # recent DIFFERENT files of the same size at this path (what a stat-based shortcut would confuse it with)
+	if me in lst:
+		lst.remove(me)
+	if lst:
+		case['previous_file_at_this_path'] = dict(order=lst[-1][0], orient=lst[-1][1], fmt=lst[-1][2], same_size=True)
+		sh.count('files_replacing_a_different_file_of_the_same_size_in_place')
+	lst.append(me)
+	del lst[:-4]
 	sh.evals += 1
 	try:
 		got = sig_of(path, ks)
 	except Exception as e:
 		sh.violation('parse-failed', case, exp, repr(e))
 		return None
-	finally:
-		os.unlink(path)
 	if got.tolist() != exp or str(got.dtype) != R.ref_dtype(k):
 		sh.violation('not-union-of-contig-signatures', case, exp, got.tolist())
 		return got
@@ -305,6 +322,17 @@ def replay(case, kind=None):
 	exp = sorted(set().union(*[set(R.ref_signature(K, PREFIX.encode(), [CONTIGS[i].encode()])) for i in subset]))
 	default_fmt = {k: v[0] for k, v in FMT.items()}
 	with fixtures.workdir('c06r') as d:
+		_PREV.clear()
+		pv = case.get('previous_file_at_this_path')
+		if pv:
+			# put the earlier file in place and let the library read it, as in the run that found the case
+			write(os.path.join(d, pv['fmt']['name']), render([CONTIGS[i] for i in pv['order']], pv['orient'], pv['fmt']), pv['fmt'])
+			try:
+				sig_of(os.path.join(d, pv['fmt']['name']), ks)
+			except Exception:
+				pass
+			check_file(sh, d, ks, subset, tuple(case['order']), tuple(case['orient']), case['fmt'], None, exp)
+			return sh.violations
 		base = check_file(sh, d, ks, subset, subset, (0,) * len(subset), default_fmt, None, exp)
 		check_file(sh, d, ks, subset, tuple(case['order']), tuple(case['orient']), case['fmt'], None if base is None else base.tolist(), exp)
 	return sh.violations
